@@ -1,6 +1,7 @@
 import SpoxModel.Lemmas.Scope
 import SpoxModel.Lemmas.ScopeHist
 import SpoxModel.Lemmas.Named
+import SpoxModel.Lemmas.NamedComplete
 import SpoxModel.Lemmas.BuildIR
 import SpoxModel.Lemmas.InlineCheck
 import SpoxModel.Lemmas.Func
@@ -256,6 +257,28 @@ theorem checkStructural_sound (g : Named.NGraph) (h : Named.checkStructural g = 
   | some st =>
     have := Named.checkGraph_sound g [] [] st hc
     exact ⟨Named.valueNames_nodup this.1.nodup, Named.nodeNames_nodup this.1.nodup, this.2⟩
+
+/-- **The translation validator refuses nothing the statement allows** (round 10, the converse of
+    `checkStructural_sound`). A graph tree — any nesting depth, any number of nodes and bodies — in which
+    every value name and every non-empty node name is defined once model-wide and every non-empty node
+    input / graph output is defined earlier in the same or an enclosing graph is ACCEPTED by the checker,
+    provided it is well-formed in the two extra respects the checker looks at (`WfG`: no graph lists an
+    initializer twice, no graph input / initializer has the empty name). So a `walker`/`checkStructural`
+    rejection of a model returned by `build` always exhibits a violated clause. -/
+theorem checkStructural_complete (g : Named.NGraph)
+    (hv : (Named.valueNames (Named.defsG g)).Nodup) (hn : (Named.nodeNames (Named.defsG g)).Nodup)
+    (hs : Named.ScopedG [] g) (hw : Named.WfG g) : Named.checkStructural g = true := by
+  unfold Named.checkStructural
+  obtain ⟨st', h⟩ := Named.checkGraph_complete g [] [] (Named.defs_nodup_of_split _ hv hn)
+    (fun d _ hd => by cases hd) hs hw
+  simp [h]
+
+/-- acceptance = the declarative statement, exactly (on well-formed trees) -/
+theorem checkStructural_iff (g : Named.NGraph) (hw : Named.WfG g) :
+    Named.checkStructural g = true ↔
+      ((Named.valueNames (Named.defsG g)).Nodup ∧ (Named.nodeNames (Named.defsG g)).Nodup ∧
+       Named.ScopedG [] g) :=
+  ⟨checkStructural_sound g, fun h => checkStructural_complete g h.1 h.2.1 h.2.2 hw⟩
 
 open Generated.BuildFlags BuildIR in
 /-- Obligation tying the theorem to the source: with the parameters `build` passes, every path of
@@ -533,6 +556,12 @@ open Named in
 example : checkStructural (.mk ["x"] [] [.mk "a" ["y"] ["z"] [], .mk "b" ["x"] ["y"] []] ["z"]) = false := by decide
 open Named in
 example : checkStructural (.mk ["x"] [] [.mk "a" ["x"] ["y"] [], .mk "a" ["y"] ["z"] []] ["z"]) = false := by decide
+-- completeness: the hypotheses are satisfiable on a nested tree, and `WfG` is needed (an initializer listed
+-- twice under an input's name defines nothing twice, yet the checker refuses it)
+example : Named.WfG (.mk ["x", "c"] ["w"] [.mk "If_0" ["c"] ["r"] [.mk [] [] [.mk "n" ["x", "w"] ["t"] []] ["t"]]] ["r"]) := by
+  simp [Named.WfG, Named.WfNs, Named.WfGs, Named.entryNames]
+example : Named.checkStructural (.mk ["x"] ["x", "x"] [] ["x"]) = false ∧
+    Named.defsG (.mk ["x"] ["x", "x"] [] ["x"]) = [(true, "x")] := by decide
 -- deleting the checker call, or checking a different variable, is not a safe shape
 open Named in
 -- a body-local value of a Loop body leaked to a SIBLING If branch (use without a visible definition): rejected
